@@ -32,7 +32,7 @@ def make_copy(m):
         s = open(p).read()
         if s.count(e["old"]) != 1:
             shutil.rmtree(d)
-            raise SystemExit("mutant %s: pattern occurs %d times in %s" % (m["name"], s.count(e["old"]), e["file"]))
+            raise ValueError("mutant %s: pattern occurs %d times in %s" % (m["name"], s.count(e["old"]), e["file"]))
         open(p, "w").write(s.replace(e["old"], e["new"]))
     return d
 
@@ -78,7 +78,11 @@ def main():
             props = [p for p in m["props"] if only is None or p in only]
             if not props:
                 continue
-            r = run(m, props)
+            try:
+                r = run(m, props)
+            except ValueError as e:
+                print("SKIPPED (stale pattern):", e, flush=True)
+                continue
             res.setdefault(m["name"], {"what": m["what"], "results": {}})["results"].update(r)
         json.dump(res, open(RESULTS, "w"), indent=1, sort_keys=True)
         subprocess.run(["git", "-C", HERE, "checkout", "--", "evidence"], capture_output=True)
